@@ -253,7 +253,7 @@ func GenStore(r *rand.Rand, oddIDs bool) Store {
 
 // QFeat switches constructs of the query generator on and off.
 type QFeat struct {
-	Inline, Untyped, Named, Directives, CompositeDirectives, AliasShadow, Typename, NodeRoot, CondID, RepeatKeys, ArgVars bool
+	Inline, Untyped, Named, Directives, CompositeDirectives, AliasShadow, Typename, NodeRoot, CondID, RepeatKeys, ArgVars, IDHeavy bool
 	Depth                                                                                                   int
 }
 
@@ -404,6 +404,15 @@ func (g *QGen) sel(typeName string, depth int, lvl *level) string {
 			g.frags = append(g.frags, fmt.Sprintf("fragment %s on %s { %s }", name, cond, inner))
 			g.feat("named")
 			parts = append(parts, "..."+name+g.directive(true))
+		}
+	}
+	if g.F.IDHeavy && def.Fields.ForName("id") != nil && g.R.Intn(3) == 0 {
+		if _, ok := used["id"]; !ok && g.R.Intn(2) == 0 {
+			used["id"] = "id"
+			parts = append(parts, "id")
+		} else if _, ok := used["x9"]; !ok {
+			used["x9"] = "id"
+			parts = append(parts, "x9: id")
 		}
 	}
 	if len(parts) == 0 {
